@@ -3521,4 +3521,61 @@ theorem v1_encode_refuses_unfit_subject (opq : Gen.Fn.V1.Opq) (kp : Nat) :
   · intro c h; rw [v1_clusterEncode]; simp [h]
   · intro c h; rw [v1_serverEncode]; simp [h]
 
+/-! ## C13: the order `sort.Sort` is given for exports and imports, as translated
+
+`sort.Sort` itself stays a parameter; what it needs from the caller is a strict weak order. The translated `Less`
+(with the nil-entries-first repair D12) is one, for every list — which is what makes the sorted result independent of
+the insertion order up to entries with equal subjects. -/
+
+/-- `Less` on two entries: a nil entry sorts before a non-nil one; otherwise by subject (byte order = code-point order) -/
+def lessBy {α : Type} (key : α → Str) (x y : Option α) : Bool :=
+  match x, y with
+  | none, some _ => true
+  | some a, some b => decide (key a < key b)
+  | _, _ => false
+
+theorem v2_exportsLess (e : List (Option V2.T_Export)) (i j : Int) (x y : Option V2.T_Export)
+    (hi : idx e i = some x) (hj : idx e j = some y) :
+    V2.Exports_Less e i j = some (lessBy (·.f_Subject) x y) := by
+  unfold V2.Exports_Less
+  cases x <;> cases y <;> simp [hi, hj, lessBy]
+
+theorem v2_importsLess (e : List (Option V2.T_Import)) (i j : Int) (x y : Option V2.T_Import)
+    (hi : idx e i = some x) (hj : idx e j = some y) :
+    V2.Imports_Less e i j = some (lessBy (·.f_Subject) x y) := by
+  unfold V2.Imports_Less
+  cases x <;> cases y <;> simp [hi, hj, lessBy]
+
+/-- out of range, `Less` panics (as `e[i]` does) and `Len` is the length -/
+theorem v2_exportsLess_range (e : List (Option V2.T_Export)) (i j : Int) (h : idx e i = none) :
+    V2.Exports_Less e i j = none := by
+  unfold V2.Exports_Less; simp [h]
+
+theorem v2_sortLen (e : List (Option V2.T_Export)) (i : List (Option V2.T_Import)) :
+    V2.Exports_Len e = some (len e) ∧ V2.Imports_Len i = some (len i) := ⟨rfl, rfl⟩
+
+/-- **the translated `Less` is a strict weak order**: irreflexive, transitive, and "neither is less" is transitive
+(it means: both nil, or both present with equal subjects) -/
+theorem lessBy_strict_weak {α : Type} (key : α → Str) :
+    (∀ x, lessBy key x x = false) ∧
+    (∀ x y z, lessBy key x y = true → lessBy key y z = true → lessBy key x z = true) ∧
+    (∀ x y z, lessBy key x y = false → lessBy key y x = false → lessBy key y z = false → lessBy key z y = false →
+        lessBy key x z = false ∧ lessBy key z x = false) ∧
+    (∀ x y, lessBy key x y = false → lessBy key y x = false →
+        (x = none ∧ y = none) ∨ ∃ a b, x = some a ∧ y = some b ∧ key a = key b) := by
+  refine ⟨?_, ?_, ?_, ?_⟩
+  · intro x; cases x <;> simp [lessBy, List.lt_irrefl]
+  · intro x y z h1 h2
+    cases x <;> cases y <;> cases z <;> simp_all [lessBy]
+    exact List.lt_trans h1 h2
+  · intro x y z h1 h2 h3 h4
+    cases x <;> cases y <;> cases z <;> simp_all [lessBy]
+    rename_i a b c
+    have e1 : key a = key b := List.le_antisymm h2 h1
+    have e2 : key b = key c := List.le_antisymm h4 h3
+    rw [e1, e2]; exact ⟨List.le_refl _, List.le_refl _⟩
+  · intro x y h1 h2
+    cases x <;> cases y <;> simp_all [lessBy]
+    exact List.le_antisymm h2 h1
+
 end Jwt.FnTie
